@@ -755,6 +755,16 @@ class Exec(CallsMixin):
                 outs.append(Outcome("next", cur))
         return self.regroup(outs)
 
+    def unordered_iteration(self, st, node, what):
+        """contract option ordered_iteration: every iteration whose order can reach the result runs over a sequence with a determined order (a list,
+        a tuple, a dict in insertion order, sorted(...)) — never directly over a set, whose order depends on the hash seed"""
+        if not self.opts.get("ordered_iteration") or self.depth != 0:
+            return
+        k_ = sum(1 for o in self.obligations if "::order:" in o.id)
+        g_ = self.guard_cond()
+        self.obligations.append(Obligation(f"{getattr(self, 'fn_site', self.fn_qual)}::order:{what.split()[0]}#{k_}", "assert", list(st.pc) + ([g_] if g_ is not None else []),
+                                           z3.BoolVal(False), {"line": getattr(node, "lineno", 0), "clause": "iteration_order_is_determined", "what": what}))
+
     def iter_seq(self, it, st, node):
         """The sequence a for-loop walks, as (Seq Any term, element-kind)."""
         if isinstance(it, tuple) and it:
@@ -773,6 +783,7 @@ class Exec(CallsMixin):
         if v.tag == "d":
             return ("dictkeys", self.dict_keyseq(v, st), v)
         if v.tag == "st":
+            self.unordered_iteration(st, node, "for-loop over a set")
             return ("seq", self.set_seq(v, st))
         if v.tag == "s":
             self.oos("iteration over the characters of a string", node)
